@@ -474,3 +474,18 @@ package table
 //@   props C13 C02
 //@   safety off
 //@   ensures [C02,C13:reset-returns-to-the-start-of-the-range] i.restartIndex == i.riStart && i.offset == i.offsetStart && i.dir == dirSOI && len(i.key) == 0 && isnil(i.value)
+
+// The counters a compaction cuts its output tables on (tWriter asks BytesLen) and that a table's record is filled from:
+// entries appended, bytes written so far, blocks finished plus the one whose index entry is still pending.
+//@ func (*Writer).EntriesLen
+//@   props C13
+//@   safety off
+//@   ensures [C13:entries-len-is-the-count-of-appended-entries] result == w.nEntries
+//@ func (*Writer).BytesLen
+//@   props C13
+//@   safety off
+//@   ensures [C13:bytes-len-is-the-offset-written-so-far] result == int(w.offset)
+//@ func (*Writer).BlocksLen
+//@   props C13
+//@   safety off
+//@   ensures [C13:blocks-len-counts-the-pending-block-too] result == w.indexBlock.nEntries + ((w.pendingBH.length > 0) ? 1 : 0)
